@@ -70,6 +70,7 @@ type Knobs struct {
 	Closed                     bool
 	NoMinRuntimeNearBoundary   bool
 	NoEvictCallFaults          bool    // C13/C14 do not quantify over failing Evict calls
+	PStaleGang                 float64 // probability that a running workload is a stale gang (below minimum for long)
 	PQueueDepth                float64 // C16: probability of a finite per-action queue depth for allocate
 }
 
@@ -86,6 +87,7 @@ func Base() Knobs {
 		PNodeSelector:           0.15, PNodeAffinity: 0.1, PToleration: 0.3, PAntiAffinity: 0.08, PAffinity: 0.05, PTopology: 0.12,
 		Fill: 0.55, PTerminating: 0.2, PBinding: 0.12, PBoundPending: 0.08,
 		ActionsChoices: []string{allActions, allActions, allActions, "allocate", "allocate, reclaim", "allocate, preempt", "allocate, consolidation", "allocate, reclaim, preempt"},
+		PStaleGang:     0.04,
 		PFaults:        0.3, CyclesMin: 2, CyclesMax: 5, PNodePool: 0.1, SmallNodes: true, PForeignPod: 0.1, PInitContainers: 0.15,
 	}
 }
@@ -144,6 +146,7 @@ func Profile(name string) Knobs {
 		k.PExplicitPreemptibility = 0.5
 		k.KindWeights = map[string]int{"cpu": 3, "whole": 5, "fraction": 3, "gpumem": 2, "multifrac": 1}
 	case "order": // C16
+		k.PStaleGang = 0
 		k.CloneClasses = 3
 		k.PQueueDepth = 0.3
 		k.Fill = 0.45
@@ -153,6 +156,7 @@ func Profile(name string) Knobs {
 		k.PAffinity, k.PAntiAffinity = 0, 0.03
 	case "closed": // C15
 		k.Closed = true
+		k.PStaleGang = 0
 		k.PFaults = 0
 		k.PTerminating, k.PBinding, k.PBoundPending = 0, 0, 0
 		k.PMinRuntime = 0
@@ -164,6 +168,7 @@ func Profile(name string) Knobs {
 		k.KindWeights = map[string]int{"cpu": 1, "whole": 7, "fraction": 3, "gpumem": 1}
 		k.PNotReady, k.PUnschedulable = 0, 0
 	case "accounting": // C13 / C14: many simulated steps, shared GPUs, solver actions
+		k.PStaleGang = 0.12
 		k.Fill, k.PTerminating, k.PBinding = 0.75, 0.2, 0.1
 		k.PGang, k.PElastic, k.PSubGroups = 0.45, 0.4, 0.25
 		k.KindWeights = map[string]int{"cpu": 2, "besteffort": 1, "whole": 5, "fraction": 5, "gpumem": 3, "multifrac": 2, "mig": 1, "ext": 1}
@@ -265,8 +270,38 @@ func GenerateWith(k Knobs, profile string, seed int64, index int, tier string) *
 			g.c.Faults.PEvictCallFails = 0
 		}
 	}
+	g.staleGangs()
 	LabelForNodePool(g.c)
 	return g.c
+}
+
+// staleGangs turns some running workloads into stale gangs: fewer active pods than the minimum for longer than the
+// staleness grace period (the stalegangeviction action evicts what is left of them).
+func (g *G) staleGangs() {
+	if g.k.PStaleGang <= 0 {
+		return
+	}
+	for _, pg := range g.c.Objects.PodGroups {
+		if len(pg.Spec.SubGroups) > 0 || pg.Annotations[spec.CloneAnno] != "" || !g.p(g.k.PStaleGang) {
+			continue
+		}
+		active := 0
+		for _, p := range g.c.Objects.Pods {
+			if p.Annotations["pod-group-name"] == pg.Name && p.Spec.NodeName != "" && p.Status.Phase == v1.PodRunning {
+				active++
+			}
+		}
+		if active == 0 {
+			continue
+		}
+		if int(pg.Spec.MinMember) <= active {
+			pg.Spec.MinMember = int32(active + 1 + g.r.IntN(2))
+		}
+		if pg.Annotations == nil {
+			pg.Annotations = map[string]string{}
+		}
+		pg.Annotations["kai.scheduler/stale-podgroup-timestamp"] = "2020-01-01T00:00:00Z"
+	}
 }
 
 // LabelForNodePool gives every queue and pod group the node-pool label the scheduler shard selects on
